@@ -137,51 +137,7 @@ def rules(ctx):
                          "the repeated factor is a copy taken before the loop" if ok else
                          "`%s` multiplies self by an object that may be self itself (%s): after the first "
                          "multiplication the factor is no longer the original base" % (src(n), sorted(o)))
-    im = da.methods.get('__imul__')
-    if im is not None:
-        sn = R.self_name(im)
-        g = cfg_of(im.node)
-        clears = [n for n in g.stmts() if isinstance(n, ast.Expr) and isinstance(n.value, ast.Call)
-                  and call_name(n.value) == 'clear']
-        # the dict branch: statements dominated by isinstance(other, dict) true edge
-        oth = im.params[1]
-        dict_loops = []
-        for lp in [n for n in g.stmts() if isinstance(n, ast.For)]:
-            facts = []
-            for t, pol, o in g.edge_dominators(lp):
-                facts += compare_atoms(t, pol)
-            if ('truthy', 'isinstance(%s, dict)' % oth) in facts and parent(lp) is not None and \
-                    not isinstance(parent(lp), ast.For):
-                dict_loops.append(lp)
-        if not dict_loops:
-            raise AnalysisError("__imul__: product loop under isinstance(other, dict) not found")
-        for lp in dict_loops:
-            ok = bool(clears) and g.dominates(clears, lp)
-            ctx.inst('R05.2', im, 'clear before product', ok,
-                     "self is emptied on every path into the product loop" if ok else
-                     "the product loop can be reached without self having been emptied (or self is never emptied): "
-                     "old terms survive in the product")
-            # snapshots taken before the clear
-            names = {n.id for n in ast.walk(lp) if isinstance(n, ast.Name)} & \
-                {it.id for it in [l.iter for l in ast.walk(lp) if isinstance(l, ast.For)] if isinstance(it, ast.Name)}
-            for nm in sorted(names):
-                for s_, v in assignments_to(im.node, nm):
-                    if not isinstance(v, ast.AST):
-                        continue
-                    okb = all(g.dominates([s_], c) and not g.reaches(c, s_) for c in clears) if clears else False
-                    ctx.inst('R05.2', im, '%s snapshot before clear' % nm, okb and _is_snapshot(v),
-                             "snapshot `%s` taken before self is emptied" % nm if okb and _is_snapshot(v) else
-                             "`%s = %s` is not a snapshot taken before self is emptied: with other is self the "
-                             "product is computed from an already emptied operand" % (nm, src(v)))
-        # every path of the dict branch passes the clear: no early return between the isinstance test and clear
-        for t, pol, o in [(t, pol, o) for lp in dict_loops[:1] for t, pol, o in g.edge_dominators(lp)]:
-            if pol and src(t) == 'isinstance(%s, dict)' % oth:
-                body_first = o.body[0]
-                ok = g.must_pass_to_exit(body_first, set(clears)) if clears else False
-                ctx.inst('R05.2', im, 'dict branch always clears', ok,
-                         "every path through the model-operand branch empties self before returning" if ok else
-                         "a path through the model-operand branch returns without emptying self: multiplying by "
-                         "an empty model leaves self unchanged instead of zero")
+    imul_rules(ctx, 'R05.2')
 
     # ---------------------------------------------------------------- R05.3
     ds = P.func('DictArithmetic.__setitem__')
@@ -380,3 +336,55 @@ def thorough_rules(ctx):
                 others = sorted(p_ for p_ in s_['mut'] if p_ != sn)
                 ctx.inst('R05.1c', m, '%s.%s' % (c, name), not others,
                          "only self is written" if not others else "with receiver %s, %s may mutate %s" % (c, m.qual, others))
+
+
+def imul_rules(ctx, rid):
+    """Structure of the model-by-model product in DictArithmetic.__imul__ (also a premise of the sat builders)."""
+    P, R = ctx.prog, ctx.res
+    da = P.cls('DictArithmetic')
+    im = da.methods.get('__imul__')
+    if im is not None:
+        sn = R.self_name(im)
+        g = cfg_of(im.node)
+        clears = [n for n in g.stmts() if isinstance(n, ast.Expr) and isinstance(n.value, ast.Call)
+                  and call_name(n.value) == 'clear']
+        # the dict branch: statements dominated by isinstance(other, dict) true edge
+        oth = im.params[1]
+        dict_loops = []
+        for lp in [n for n in g.stmts() if isinstance(n, ast.For)]:
+            facts = []
+            for t, pol, o in g.edge_dominators(lp):
+                facts += compare_atoms(t, pol)
+            if ('truthy', 'isinstance(%s, dict)' % oth) in facts and parent(lp) is not None and \
+                    not isinstance(parent(lp), ast.For):
+                dict_loops.append(lp)
+        if not dict_loops:
+            raise AnalysisError("__imul__: product loop under isinstance(other, dict) not found")
+        for lp in dict_loops:
+            ok = bool(clears) and g.dominates(clears, lp)
+            ctx.inst(rid, im, 'clear before product', ok,
+                     "self is emptied on every path into the product loop" if ok else
+                     "the product loop can be reached without self having been emptied (or self is never emptied): "
+                     "old terms survive in the product")
+            # snapshots taken before the clear
+            names = {n.id for n in ast.walk(lp) if isinstance(n, ast.Name)} & \
+                {it.id for it in [l.iter for l in ast.walk(lp) if isinstance(l, ast.For)] if isinstance(it, ast.Name)}
+            for nm in sorted(names):
+                for s_, v in assignments_to(im.node, nm):
+                    if not isinstance(v, ast.AST):
+                        continue
+                    okb = all(g.dominates([s_], c) and not g.reaches(c, s_) for c in clears) if clears else False
+                    ctx.inst(rid, im, '%s snapshot before clear' % nm, okb and _is_snapshot(v),
+                             "snapshot `%s` taken before self is emptied" % nm if okb and _is_snapshot(v) else
+                             "`%s = %s` is not a snapshot taken before self is emptied: with other is self the "
+                             "product is computed from an already emptied operand" % (nm, src(v)))
+        # every path of the dict branch passes the clear: no early return between the isinstance test and clear
+        for t, pol, o in [(t, pol, o) for lp in dict_loops[:1] for t, pol, o in g.edge_dominators(lp)]:
+            if pol and src(t) == 'isinstance(%s, dict)' % oth:
+                body_first = o.body[0]
+                ok = g.must_pass_to_exit(body_first, set(clears)) if clears else False
+                ctx.inst(rid, im, 'dict branch always clears', ok,
+                         "every path through the model-operand branch empties self before returning" if ok else
+                         "a path through the model-operand branch returns without emptying self: multiplying by "
+                         "an empty model leaves self unchanged instead of zero")
+
